@@ -24,8 +24,8 @@ func pairCases(cfg engine.Config, kinds []int64, ops []int64) []engine.Case {
 var allOps = []int64{0, 1, 2, 3, 4, 5, 6, 7, 8, 9, 10, 11, 12, 13, 14, 15, 16, 19, 20, 21, 22, 23, 24, 25}
 var coreOps = []int64{0, 1, 3, 4, 5, 7, 8, 9, 10, 12, 13, 14, 22, 24, 25}
 
-// core8: the templates explored at pre-emption bound 3 in the thorough tier.
-var core8 = []int64{0, 1, 3, 4, 6, 8, 12, 13}
+// core8: the (five) templates explored at pre-emption bound 3 in the thorough tier.
+var core8 = []int64{0, 1, 4, 8, 12}
 
 func init() {
 	reg(&property{
@@ -41,8 +41,8 @@ func init() {
 				cfg3 := cfg
 				cfg3.Preempt = 3
 				cs = append(cs, pairCases(cfg3, []int64{0, 1}, core8)...)
-				// three goroutines on five core templates
-				core := []int64{0, 1, 4, 8, 12}
+				// three goroutines on three core templates
+				core := []int64{0, 4, 8}
 				for _, kind := range []int64{0, 1} {
 					for i, a := range core {
 						for j := i; j < len(core); j++ {
@@ -60,7 +60,7 @@ func init() {
 		Explanation: "Bounded exhaustive schedule exploration through the same fork machinery (the solver's part is degenerate here: schedule and random-name choices are enumeration points): every unordered pair of 22 call templates on overlapping names is run by two interpreted goroutines (MemFS: each through its own Sub(\"/\") view; OrefaFS: shared) under every interleaving at lock-acquisition/atomic granularity within the pre-emption bound; the results and the final tree must equal those of one of the sequential orders of the same calls run on fresh instances in the same symbolic run. CreateTemp/MkdirTemp use the symbolic random-name stub (two draws in {0,1}), so colliding names are explored. A schedule in which no goroutine can run is reported as a deadlock.",
 		Bounds: func(tier string) map[string]any {
 			if tier == "thorough" {
-				return map[string]any{"goroutines": "2 (all 300 pairs of the 24 templates + temporary-name pairs at pre-emption bound 2; the 36 pairs of 8 core templates at bound 3) and 3 (35 triples of 5 core templates, bound 2)", "calls_per_goroutine": 1, "scheduling_points": "before Lock/RLock, at atomics, at blocking, at goroutine start/exit", "outside": "more goroutines, longer programs, pre-emption at unsynchronised accesses, free-running stress"}
+				return map[string]any{"goroutines": "2 (all 300 pairs of the 24 templates + temporary-name pairs at pre-emption bound 2; the 15 pairs of 5 core templates at bound 3) and 3 (10 triples of 3 core templates, bound 2)", "calls_per_goroutine": 1, "scheduling_points": "before Lock/RLock, at atomics, at blocking, at goroutine start/exit", "outside": "more goroutines, longer programs, pre-emption at unsynchronised accesses, free-running stress"}
 			}
 			return map[string]any{"goroutines": 2, "template_pairs": "120 (15 core templates) + 3 temporary-name pairs per file system", "calls_per_goroutine": 1, "preemption_bound": 2, "scheduling_points": "before Lock/RLock, at atomics, at blocking, at goroutine start/exit", "outside": "3 goroutines (thorough), longer programs, pre-emption at unsynchronised accesses, free-running stress"}
 		},
